@@ -200,6 +200,7 @@ func (p *Parser) parseModule() (module BlockStmt) {
 			}
 			return
 		case ImportToken:
+			p.allowDirectivePrologue = false // like any other statement, it ends the directive prologue
 			p.next()
 			if p.tt == OpenParenToken {
 				// could be an import call expression
@@ -229,6 +230,7 @@ func (p *Parser) parseModule() (module BlockStmt) {
 				module.List = append(module.List, &importStmt)
 			}
 		case ExportToken:
+			p.allowDirectivePrologue = false
 			exportStmt := p.parseExportStmt()
 			module.List = append(module.List, &exportStmt)
 		default:
